@@ -21,10 +21,11 @@ UniOps    == {"U2192", "U2295", "U29FA", "U21CC", "U2227", "U2228"}
 AsciiOps  == {"+", "~", "|", "&", "@"}
 Misc      == {"%", "=", "`", ";", "(", ")"}
 Exotic    == {"U0001", "U0301", "U1F600"}          \* control, combining acute, non-BMP
+LineLike  == {"U000C", "U0085", "U2028"}          \* form feed, NEL, LINE SEPARATOR: line boundaries to str.splitlines(), not to OCTAVE
 Words     == {"true", "false", "null", "vs", "//", "::", "->", "<->", "==="}
 
 Single    == Letters \cup Digits \cup IdPunct \cup White \cup Quoting \cup Struct
-               \cup UniOps \cup AsciiOps \cup Misc \cup Exotic
+               \cup UniOps \cup AsciiOps \cup Misc \cup Exotic \cup LineLike
 Symbols   == Single \cup Words
 
 (* characters of the multi-character atoms *)
